@@ -113,6 +113,8 @@ class Harness:
             it = dict(i_iter=int(i_iter), data=energy_arrays(self_), prefix=prefix, suffix=suffix)
             if h.snapshot_klist and obs.K_list is not None:
                 it["klist"] = [(id(K), float(K.factor)) for K in obs.K_list]
+            if h.snapshot_klist and obs.K_list is not None and len(obs.K_list) > 0:
+                it["selection_gap"] = selection_gap(obs.K_list)
             obs.iterations.append(it)
             h.rec.ev("iter", int(i_iter), len(obs.K_list) if obs.K_list is not None else -1)
             if h.on_iteration is not None:
@@ -179,6 +181,25 @@ class _OfflineRay:
 # ---------------------------------------------------------------------------------------------------
 #  oracle helpers shared by several drivers
 # ---------------------------------------------------------------------------------------------------
+def selection_gap(K_list):
+    """smallest relative gap, over the refinement criteria, between neighbouring values of K.max (sorted).  Refinement
+    selects the top adpt_fac K-points per criterion and breaks exact ties by list position / sort internals, so a run
+    whose gap is ~0 may legitimately refine differently when the list order differs (e.g. after a mid-iteration kill)."""
+    try:
+        Kmax = np.array([K.max for K in K_list], dtype=float).T
+    except Exception:
+        return None
+    gap = np.inf
+    for Km in Kmax:
+        v = np.sort(Km[Km != 0]) if np.any(Km != 0) else np.zeros(0)
+        if len(Km) > 1 and not np.any(Km != 0):
+            return 0.0          # identically zero criterion: every K-point ties
+        if len(v) > 1:
+            d = np.diff(v) / np.maximum(np.abs(v[1:]), np.abs(v[:-1]))     # relative to the neighbours themselves
+            gap = min(gap, float(np.min(d)))
+    return None if gap == np.inf else gap
+
+
 def weighted_sum(obs, klist_snapshot, key):
     """sum_i factor_i * payload_i in plain numpy; returns (sum, scale) with scale = sum |f_i| * max|payload_i|"""
     tot = None
